@@ -148,6 +148,7 @@ impl feoxdb::verif::proto::Observer for Recorder {
                     t.push((a, b, ts));
                 }
             }
+            _ => {}
         }
     }
 }
